@@ -157,6 +157,10 @@ def r_shared_callee(ctx):
             lab = [l for w, l in p.conds if l in ('Some', 'None')]
             got[lab[0] if lab else '?'] = S(r)
     ctx.ob(rid, 'value-block', re.match(r'some\(', got.get('Some', '')) is not None and got.get('None', '').startswith('none(array('), 'value of a list block = some(balanced array) or none(array type of the block size)', cv.value if False else cv.where(), str(got))
+    cb = ctx.anchor(fx, 'value::destruct::as_list::{closure#0}')
+    got = sorted((cond_str(p.conds), S(r)) for k, p, r in explore(ctx, cb) if k == 'RET')
+    exp = [('as_option(value)=None', 'None{}'), ('as_option(value)=Some & as_option(value)@Some.0=None', 'Some{new()}'), ('as_option(value)=Some & as_option(value)@Some.0=Some', 'as_array(as_option(value)@Some.0@Some.0, size)')]
+    ctx.ob(rid, 'decode-block', got == sorted(exp), 'decoding a list block: none ↦ no elements, some(array) ↦ as_array(array, block size)', cb.where(), str(got))
     # compile arms: via schema summaries
     c01.schema_rules(ctx, only={'compile::<impl ast::SingleExpression>::compile'})
 
